@@ -332,10 +332,7 @@ theorem sameA_opCcs (s : St) (ver : Nat) : SameA s (opCcs s ver).1 := by
   obtain ⟨s2, ev1⟩ := r2
   simp only at h2 ⊢
   split
-  · have h3 := sameA_addSubConn s2
-    generalize addSubConn s2 = r3 at h3 ⊢
-    obtain ⟨s3, ok, ev2⟩ := r3
-    exact ((h0.trans h1).trans h2).trans h3
+  · exact ((h0.trans h1).trans h2).trans (sameA_enforce s2 _ _)
   · exact (h0.trans h1).trans h2
 
 /-! ### the state report: transition, regenerate, publish -/
